@@ -10,11 +10,14 @@ for base in ("hugr-py/src/hugr", "scripts"):
         def walk(node, cls):
             for n in ast.iter_child_nodes(node):
                 if isinstance(n, ast.ClassDef):
+                    names.add(f"class:{n.name}")
                     walk(n, n.name)
                 elif isinstance(n, (ast.FunctionDef, ast.AsyncFunctionDef)):
                     names.add(n.name)
                     if cls:
                         names.add(f"{cls}.{n.name}")
+                    else:
+                        names.add(f"fn:{n.name}")       # a module-level or nested function (not a method)
                     walk(n, None)
                 else:
                     walk(n, cls)
